@@ -47,7 +47,8 @@ def run_history(spec, hdir: Path, timeout=600):
         cfg.update(output=str(out), events=str(hdir / f"ev{proc}.ndjson"), proc=proc,
                    resume=proc > 0, kill_at_eval=kills[proc] if proc < len(kills) else None,
                    run_again=spec.get("run_again", 0), save=spec.get("save"),
-                   signal_handling=spec.get("signal_handling", False), exit_code=spec.get("exit_code"))
+                   signal_handling=spec.get("signal_handling", False), exit_code=spec.get("exit_code"),
+                   run_kwargs=spec.get("run_kwargs", {}))
         cfg.update(spec.get("extra", {}))
         cfg.update(spec.get("extra_by_proc", {}).get(str(proc), {}))
         cpath = hdir / f"cfg{proc}.json"
